@@ -12,3 +12,10 @@ Definition grid_model (shape : list Z) (dims : list chars) (idx : list item) (ma
 Definition chk_grid (c : list Z * list chars * list item * list (chars * Z) * option (list (list Z))) : bool :=
   let '(shape, dims, idx, maps, obs) := c in
   opt_eqb (list_eqb (list_eqb Z.eqb)) (grid_model shape dims idx maps) obs.
+
+(* the same pairing on the client: add_dap2_proxies gives every map of a grid opened with a hyperslab in the URL the hyperslab of
+   the axis it names.  Case: raw dimension names of the array, the URL hyperslab (one slice per axis), the maps in the order the
+   DDS declares them, and the slice found on every map's proxy. *)
+Definition chk_url_maps (c : list chars * list item * list chars * list (option item)) : bool :=
+  let '(dims, key, maps, obs) := c in
+  list_eqb (opt_eqb item_eqb) (map snd (pair_maps (usable_dims dims (List.length key)) key 1 maps)) obs.
